@@ -57,7 +57,19 @@ fn run_case<M: Monitor>(m: &M, cs: u64, index: u64, tier: Tier, rep: &mut Report
     let mut rng = Rng::new(cs);
     let case = m.generate(&mut rng, tier, index);
     let mut ctx = Ctx { rep, case_seed: cs, tier, pending: vec![], verbose: false };
-    m.check(&case, &mut ctx);
+    // the monitors catch panics of the API calls they make; a panic that escapes them comes from
+    // inspecting the solver state afterwards (hook dump, accessors) or from the harness itself
+    match crate::run::catch(|| m.check(&case, &mut ctx)) {
+        crate::run::Caught::Ok(()) => {}
+        crate::run::Caught::Panic(pi) => {
+            if pi.in_harness() {
+                ctx.rep.inconclusive(&format!("harness panic: {}", pi.signature()));
+            } else {
+                ctx.violation(format!("solver state could not be inspected after the call: panic in {}", pi.signature()), String::new());
+            }
+        }
+        _ => ctx.rep.inconclusive("monitor aborted (deadlock / budget outside a solve call)"),
+    }
     let pending = std::mem::take(&mut ctx.pending);
     rep.cases += 1;
     record(rep, pending, cs, || serde_json::to_value(&case).unwrap_or(Value::Null));
@@ -147,7 +159,9 @@ pub fn run<M: Monitor>(m: &M, cfg: &RunCfg) -> RunResult {
             }));
         }
         for h in handles {
-            let _ = h.join();
+            if h.join().is_err() {
+                merged.lock().unwrap().inconclusive("a worker thread died");
+            }
         }
         done.store(true, Ordering::SeqCst);
     });
